@@ -2,6 +2,7 @@ pub mod c01;
 pub mod c05;
 pub mod c06;
 pub mod c07;
+pub mod c08;
 
 use crate::pool::Merged;
 use crate::shard::Shard;
@@ -35,7 +36,7 @@ impl Prop {
 }
 
 pub fn registry() -> Vec<Prop> {
-    vec![c01::prop(), c05::prop(), c06::prop(), c07::prop()]
+    vec![c01::prop(), c05::prop(), c06::prop(), c07::prop(), c08::prop()]
 }
 
 pub fn find(id: &str) -> Option<Prop> {
